@@ -1,0 +1,30 @@
+//go:build verif
+
+// Contracts for the deductive verifier in /verif (govc). This file contains no code: with the
+// build tag off it is not part of the package, with it on it adds nothing to the build.
+package vm
+
+//@ import sdk "github.com/cosmos/cosmos-sdk/types"
+//@ import common "github.com/ethereum/go-ethereum/common"
+//@ import ethtypes "github.com/ethereum/go-ethereum/core/types"
+//@ import authkeeper "github.com/cosmos/cosmos-sdk/x/auth/keeper"
+//@ import bankkeeper "github.com/cosmos/cosmos-sdk/x/bank/keeper"
+
+// abstract version of the persistent (non-transient) chain state
+//@ ghost var wVersion map[int]int
+
+//@ func NewStateDB(ctx sdk.Context, coinbase common.Address, ethKeeper EvmKeeper, accountKeeper authkeeper.AccountKeeper, bankKeeper bankkeeper.Keeper) CStateDB
+//@   assumed
+//@   modifies nothing
+//@   ensures result != nil && fresh(payload(result))
+//@   panics never
+
+//@ func (d CStateDB) GetTransactionLogs() []*ethtypes.Log
+//@   assumed
+//@   modifies nothing
+//@   panics never
+
+//@ func (d CStateDB) CommitMultiStore(deleteEmptyObjects bool) error
+//@   assumed
+//@   modifies wVersion, sdbOther[payload(d)]
+//@   panics any
